@@ -42,7 +42,7 @@ def run(ctx, info):
         ctx.broke(f"correspondence:Loop.run vs real optimize() on {json.dumps(metas[i])[:500]}", "model and implementation differ")
     ctx.coverage["correspondence"] = {"cases": res["n"], "disagreements": len(res["bad"]), "files": res["files"]}
     from .. import edgesuite
-    edgesuite.run(ctx, "best")
+    edgesuite.run(ctx, "best", info=info)
     # every real optimizer, both directions, objectives with plateaus (ties) and smooth ones
     r = ctx.rng
     jobs = []
